@@ -21,6 +21,16 @@ def main():
     cases_file, out_file = sys.argv[1:3]
     from vf import env
     env.bootstrap()
+    if os.environ.get("VF_DECIMAL"):
+        # the application's ambient decimal context is part of the environment the output must not depend on
+        import decimal
+        ctx = decimal.getcontext()
+        for item in os.environ["VF_DECIMAL"].split(";"):
+            k, v = item.split("=")
+            if k == "prec":
+                ctx.prec = int(v)
+            elif k == "rounding":
+                ctx.rounding = getattr(decimal, v)
     from vf import spec as S
     from vf.monitors import purity, audit, reach
     reach.start(env.pkg_dir())
@@ -150,7 +160,7 @@ def main():
     out = {"env": {"PYTHONHASHSEED": os.environ.get("PYTHONHASHSEED"), "LC_ALL": os.environ.get("LC_ALL"),
                    "PYTHONUTF8": os.environ.get("PYTHONUTF8"), "PYTHONIOENCODING": os.environ.get("PYTHONIOENCODING"),
                    "preferred_encoding": locale.getpreferredencoding(False), "utf8_mode": sys.flags.utf8_mode,
-                   "dev_mode": sys.flags.dev_mode, "optimize": sys.flags.optimize, "hash_of_a": hash("a")},
+                   "dev_mode": sys.flags.dev_mode, "optimize": sys.flags.optimize, "decimal": os.environ.get("VF_DECIMAL"), "hash_of_a": hash("a")},
            "results": results, "reach": reach.counts()}
     with open(out_file, "w", encoding="utf-8") as fh:
         json.dump(out, fh)
